@@ -25,19 +25,21 @@ def decWatchFiles : Sexp → Option (List (String × List Variant))
     | _ => none
   | _ => none
 
-def decOps : Sexp → Option (List (Session.Op String Nat))
+def decOps : Sexp → Option (List (Session.Op String Nat Nat))
   | .list (.atom "ops" :: os) => os.mapM fun o => match o with
     | .list [.atom "u", .str f, .atom k] => (k.toNat?).map fun n => Session.Op.update f n
-    | .list [.atom "r"] => some .rebuild
+    | .list [.atom "r"] => some (.rebuild 0)
+    | .list [.atom "rs", .atom k] => (k.toNat?).map fun n => Session.Op.rebuild n
     | _ => none
   | _ => none
 
-def watchWorld (files : List (String × List Variant)) : Session.World String Nat (List Stmt × List (String × Ty)) String :=
+def watchWorld (files : List (String × List Variant)) : Session.World String Nat (List Stmt × List (String × Ty)) Nat String :=
   { parse := fun f k => match files.find? (fun x => x.1 == f) with
       | some (_, vs) => (vs[k]?).bind (·.src)
       | none => none
-    touched := fun _ => files.map (·.1)
-    extract := fun v =>
+    touched := fun _ _ => files.map (·.1)
+    -- (the compiler model knows every format the harness registers: histories that vary the settings are not tied)
+    extract := fun _ v =>
       match v "entry.ts" with
       | none => "diags"                      -- the entry does not parse / cannot be found
       | some (_, exps) =>
